@@ -47,4 +47,44 @@ def noFuncCallL (M : Model) : List Expr → Bool
   | e :: es => noFuncCall M e && noFuncCallL M es
 end
 
+/-! ### hypotheses of the no-internal-error theorem (Props/C10NoInt.lean) -/
+
+/-- the failures that are refusals (ValueError), or belong to the model (fuel, input outside the modelled fragment) -/
+def Err.designed : Err → Bool
+  | .valueError _ => true
+  | .fuel => true
+  | .unsupported _ => true
+  | _ => false
+
+/-- `ast.literal_eval` of the node does not fail with an internal error (an unhashable key inside a dictionary literal) -/
+def litSafe (e : Expr) : Bool :=
+  match literalEval e with
+  | .error err => err.designed
+  | .ok _ => true
+
+mutual
+/-- trees Python's parser produces: a dictionary literal has as many keys as values and its keys evaluate (or are refused)
+    without a TypeError; a constant index into a tuple literal is not below `-len` (the parser writes `-1` as a unary
+    minus, which is refused as a non-constant index) -/
+def wfU : Expr → Bool
+  | .name _ => true
+  | .const _ => true
+  | .attr v _ => wfU v
+  | .lam _ b => wfU b
+  | .sub v s =>
+    wfU v && wfU s && litSafe s &&
+      (match v, s with
+       | .tuple elts, .const (.int n) => decide (-(elts.length : Int) ≤ n)
+       | _, _ => true)
+  | .tuple es => wfUL es
+  | .list es => wfUL es
+  | .dict ks vs => wfUL ks && wfUL vs && (ks.length == vs.length) && ks.all litSafe
+  | .op _ es => wfUL es
+  | .comp _ e t i ifs _ => wfU e && wfU t && wfU i && wfUL ifs
+  | .call f args _ kwv => wfU f && wfUL args && wfUL kwv
+def wfUL : List Expr → Bool
+  | [] => true
+  | e :: es => wfU e && wfUL es
+end
+
 end Fadl
